@@ -394,12 +394,12 @@ def random_safe_rule(rng, nn):
     return rule(prem, concl)
 
 
-def gen_case(rng, maxunc, family=None):
+def gen_case(rng, maxunc, family=None, minunc=2):
     family = family or rng.choice(["tc", "tc", "tcnl", "mutual", "symtrans", "diamond", "tri", "random", "random"])
-    nn = rng.randint(3, 5)
-    nunc = rng.randint(2, maxunc)
+    nunc = rng.randint(min(minunc, maxunc), maxunc)
+    nn = rng.randint(3 if nunc <= 6 else 4, 5)
     if family in ("tc", "tcnl"):
-        ne = rng.randint(3, min(nn * (nn - 1), max(4, nunc + 2)))
+        ne = rng.randint(max(3, min(nunc - 1, nn * (nn - 1))), min(nn * (nn - 1), max(4, nunc + 2)))
         edges = random_edges(rng, nn, ne, P0, loops=rng.random() < 0.2)
         variant = "nonlinear" if family == "tcnl" else rng.choice(["left", "right"])
         rules = tc_rules(P0, P1, variant)
@@ -407,7 +407,7 @@ def gen_case(rng, maxunc, family=None):
             rules.append(rule([[v(0), k(P1), v(1)], [v(1), k(P1), v(0)]], [[v(0), k(P2), v(1)]]))
         triples = edges
     elif family == "mutual":
-        edges = random_edges(rng, nn, rng.randint(3, min(nn * (nn - 1), nunc + 2)), P0)
+        edges = random_edges(rng, nn, rng.randint(max(3, min(nunc - 1, nn * (nn - 1))), min(nn * (nn - 1), nunc + 2)), P0)
         rules = [rule([[v(0), k(P0), v(1)]], [[v(0), k(P1), v(1)]]),
                  rule([[v(0), k(P1), v(1)], [v(1), k(P0), v(2)]], [[v(0), k(P2), v(2)]]),
                  rule([[v(0), k(P2), v(1)], [v(1), k(P0), v(2)]], [[v(0), k(P1), v(2)]])]
@@ -473,6 +473,10 @@ def gen_naf_case(rng, maxunc):
     rules = c["rules"] + extra
     rng.shuffle(rules)
     return dict(c, rules=rules, family="naf-" + c["family"])
+
+
+def rng_family(rng):
+    return rng.choice(["tc", "tc", "tcnl", "mutual"])
 
 
 def exhaustive_cases(thorough):
@@ -650,9 +654,6 @@ def evaluate_programs(ctx, binpath, cases, stream, coq_spec_sample=0):
                         break
                     if mode == "dnf" and sorted(clause_masks(cl, perm) for cl in i["tag"][f]) != mm["tag"][f]:
                         diff = "DNF tag of %s" % (f,)
-                        break
-                    if mode == "sdd" and orc.eval_models(i["tag"][f], perm) != mm["tag"][f][0][0]:
-                        diff = "truth table of the SDD tag of %s" % (f,)
                         break
                     if mode == "bool" and [(1 if i["tag"][f] else 0, 0)] != mm["tag"][f]:
                         diff = "Boolean tag of %s" % (f,)
@@ -846,7 +847,10 @@ def run(ctx):
     # random programs
     n = 3000 if ctx.thorough else 320
     maxunc = 12 if ctx.thorough else 8
-    rnd = [gen_case(ctx.rng, maxunc if i % 4 else min(maxunc, 5)) for i in range(n)]
+    # a quarter small (dense in the interesting shapes), a quarter pushed towards the largest number of uncertain inputs
+    rnd = [gen_case(ctx.rng, min(maxunc, 5)) if i % 4 == 0 else
+           gen_case(ctx.rng, maxunc, rng_family(ctx.rng), minunc=maxunc - 2) if i % 4 == 1 else
+           gen_case(ctx.rng, maxunc) for i in range(n)]
     ctx.sample(rnd[0])
     evaluate_programs(ctx, binpath, rnd, "random", coq_spec_sample=100 if ctx.thorough else 16)
     # programs with a negative stratum (exact modes against the Spec; min-max / Boolean against the model only)
